@@ -125,7 +125,137 @@ def c12(tier):
     return ck.finish()
 
 
-CHECKS = {"C11": c11, "C12": c12}
+
+# ------------------------------------------------------------------ C18
+def c18(tier):
+    ck = Check("C18", tier, "model_checking")
+    exe = build.build("plain")
+    full = tier == "thorough"
+    # spec sanity: the nine published test vectors and the structure of the constant table
+    san = core.tlc_ok(core.tlc("PolyglotSanity.tla", cfg="PolyglotSanity.cfg", workers=1, timeout=600, metadir=os.path.join(ck.work, "md_s")), "PolyglotSanity")
+    if "PolyglotSanity OK" not in san["strings"]:
+        raise InfraError("PolyglotSanity did not complete")
+    # R: covering family
+    fam = core.tlc_ok(core.tlc("PolyglotFam.tla", cfg="PolyglotFam.cfg", workers=16, timeout=1800, xmx="6g", metadir=os.path.join(ck.work, "md_f")), "PolyglotFam")
+    lines = sorted(set(x[3:] for x in fam["strings"] if x.startswith("PG ")))
+    if len(lines) < 1000:
+        raise InfraError("polyglot family too small: %d" % len(lines))
+    nd = os.path.join(ck.work, "pgfam.ndjson")
+    open(nd, "w").write("\n".join(lines) + "\n")
+    outp = os.path.join(ck.work, "pgfam.res")
+    core.run_vh(exe, ["polyglot-replay", "--in", nd, "--out", outp])
+    recs = [json.loads(l) for l in open(outp)]
+    summ = [r for r in recs if r.get("summary")][0]
+    take_all(ck, "C18", recs, lambda r: {"kind": r["kind"], "ep": r["detail"].get("ep"), "ep_counts": r["detail"].get("ep_counts")})
+    ck.add_states(fam["generated"], fam["distinct"])
+    # T: engine games
+    roots = os.path.join(ck.work, "roots.fen")
+    with open(roots, "w") as f:
+        for n in ("roots_general.fen", "roots_special.fen"):
+            f.write("".join(l for l in open(os.path.join(VERIF, "data", n)) if l.strip() and not l.startswith("#")))
+    core.run_vh(exe, ["polyglot-walk", "--roots", roots, "--games", 4000 if full else 320, "--maxply", 90, "--shards", 16, "--out", ck.work, "--stem", "pg",
+                      "--seed", core.seed()])
+    shards = sorted(os.path.join(ck.work, f) for f in os.listdir(ck.work) if f.startswith("pg.") and f.endswith(".ndjson"))
+    viols, cnt, st = core.validate_shards(shards, module="PolyglotTrace.tla", cfg="PolyglotTrace.cfg")
+    ck.add_states(st["generated"], st["distinct"])
+    ck.cov["traces_validated_against_impl"] = st["shards"]
+    if cnt.get("pg", 0) == 0 or cnt.get("epcounts", 0) == 0 or cnt.get("castle", 0) == 0:
+        raise InfraError("vacuous polyglot trace: %s" % cnt)
+    for v in viols:
+        ck.discrepancy({"kind": v["kind"], "ep": v["detail"].get("ep"), "ep_counts": v["detail"].get("ep_counts")}, v)
+    eps = [json.loads(l) for l in lines if '"ep":true' in l]
+    ck.cov["evaluations"] = summ["positions"] + cnt["pg"]
+    ck.cov["distinct_nontrivial"] = len(lines)
+    ck.cov["rule"] = ("spec->code: every member of the covering family enumerated by TLC (each non-king piece on each square with several king placements, kings on every "
+                      "square, all 16 castling-right sets, every en-passant situation: capturer left/right/both/none, a- and h-file, pinned capturer; both colours; "
+                      "all RetroLegal and distinct) with the key Polyglot!Key assigns; code->spec: positions along engine games with the engine's key recomputed by "
+                      "the PolyglotTrace monitor (%d positions, %d with an en-passant square, %d where it counts). The specification itself is checked against the "
+                      "nine published test vectors") % (cnt["pg"], cnt["ep"], cnt["epcounts"])
+    ck.cov["family_positions"] = len(lines)
+    ck.cov["family_positions_with_ep"] = len(eps)
+    ck.cov["monitor_counters"] = cnt
+    ck.sample(json.loads(lines[0])); ck.sample(eps[0] if eps else {}); ck.sample(json.loads(open(shards[0]).readline()))
+    ck.assumptions += ["the 781 Random64 constants as transcribed from the pinned commit into PolyglotRandom.tla (published order), cross-checked by the nine "
+                       "published vectors; a constant already wrong at the pinned commit and not touched by those vectors would not be detected offline",
+                       "ChessText.tla ParseFen for the engine's FEN strings"]
+    return ck.finish()
+
+
+# ------------------------------------------------------------------ C19
+def c19(tier):
+    ck = Check("C19", tier, "model_checking")
+    exe = build.build("plain")
+    full = tier == "thorough"
+    # D: the reader loop as a state machine: the repaired loop loads exactly the complete records; the loop as written does not
+    d_ok = core.tlc_ok(core.tlc("Book.tla", cfg="BookReader.cfg", workers=1, timeout=300, metadir=os.path.join(ck.work, "md_r")), "BookReader")
+    d_bad = core.tlc("Book.tla", cfg="BookReader_aswritten.cfg", workers=1, timeout=300, metadir=os.path.join(ck.work, "md_r2"))
+    ck.add_states(d_ok["generated"], d_ok["distinct"])
+    ck.cov["design_reader_loop"] = dict(repaired_states=d_ok["distinct"], as_written_violates=d_bad["rc"] != 0)
+    # R: concrete files
+    cfg = os.path.join(ck.work, "BookFiles.cfg")
+    open(cfg, "w").write("CONSTANT Full = %s\nINIT Init\nNEXT Next\nINVARIANT Emit\nCHECK_DEADLOCK FALSE\n" % ("TRUE" if full else "FALSE"))
+    res = core.tlc_ok(core.tlc("BookFiles.tla", cfg=cfg, workers=16, timeout=3000, xmx="8g", metadir=os.path.join(ck.work, "md_b")), "BookFiles")
+    lines = sorted(set(x[5:] for x in res["strings"] if x.startswith("BOOK ")))
+    if len(lines) < 100:
+        raise InfraError("book family too small: %d" % len(lines))
+    ck.add_states(res["generated"], res["distinct"])
+    bdir = os.path.join(ck.work, "books")
+    os.makedirs(bdir, exist_ok=True)
+    flat = os.path.join(ck.work, "books.txt")
+    nres = 0
+    with open(flat, "w") as fo:
+        for i, l in enumerate(lines):
+            b = json.loads(l)
+            path = os.path.join(bdir, "b%06d.bin" % i)
+            open(path, "wb").write(bytes.fromhex(b["bytes"]))
+            keys = {}
+            for e in b["entries"]:
+                keys.setdefault(e["key"], 0)
+            fo.write("FILE %s %d %d\n" % (path, b["nrecords"], len(keys)))
+            for e in b["entries"]:
+                fo.write("ENTRY %s %s %d" % (e["fen"].replace(" ", "_"), e["key"], len(e["records"])))
+                for uci, w, code, dec in e["records"]:
+                    pc = (code >> 12) & 7
+                    fo.write(" %d %d %d %d %s" % ((code >> 6) & 63, code & 63, pc + 1 if pc else 0, w, dec))
+                fo.write("\nBEST %d %s\n" % (len(e["best"]), " ".join(e["best"])))
+                fo.write("PICK %d %s\nEND\n" % (len(e["pick"]), " ".join(e["pick"])))
+                nres += len(e["pick"])
+    outp = os.path.join(ck.work, "books.res")
+    core.run_vh(exe, ["book-replay", "--in", flat, "--out", outp, "--uci", 1], timeout=3000)
+    recs = [json.loads(l) for l in open(outp)]
+    summ = [r for r in recs if r.get("summary")][0]
+    if summ["files"] != len(lines):
+        raise InfraError("book replay processed %d of %d files" % (summ["files"], len(lines)))
+
+    def sig(r):
+        d = r.get("detail", {})
+        s = {"kind": r["kind"]}
+        if r["kind"] == "loaded_records":
+            s["extra"] = d["loaded_records"] - d["file_records"]
+        if r["kind"] == "random_policy":
+            s["sample_zero"] = d.get("sample") == 0
+        return s
+    take_all(ck, "C19", recs, sig)
+    shutil.rmtree(bdir, ignore_errors=True)
+    ck.cov["evaluations"] = summ["lookups"] + summ["files"]
+    ck.cov["distinct_nontrivial"] = len(lines)
+    ck.cov["traces_validated_against_impl"] = len(lines)
+    ck.cov["residues_checked"] = summ["residues"]
+    ck.cov["residues_total"] = nres
+    ck.cov["uci_runs"] = summ["uci_runs"]
+    ck.cov["rule"] = ("every book file enumerated by TLC from BookFiles.tla is a distinct case: records for one or two real positions (keys by Polyglot!Key) with 1..3 moves "
+                      "(castling stored king-takes-rook, promotions with and without capture, a rook move e1-h1 that is not castling, ordinary moves), weights from "
+                      "{0,1,2,5}, optional trailing partial record, the empty file and partial-only files. The real reader loads each file; the loaded map is compared "
+                      "record by record; get_best_move must return a maximal-weight move; get_random_move is checked as a decision function for every sample residue "
+                      "0..sum-1 (the sample of each call is predicted from a copy of the generator state), which gives probability proportional to weight under the "
+                      "trusted uniformity of std::mt19937; the same books are also used through setoption / position / go")
+    ck.sample(json.loads(lines[0])); ck.sample(json.loads(lines[len(lines) // 2]))
+    ck.assumptions += ["uniformity of std::mt19937 + uniform_int_distribution (probabilities follow from interval lengths)",
+                       "weight vectors with all weights zero are excluded (proportional choice is undefined; the engine asserts sum > 0)"]
+    return ck.finish()
+
+
+CHECKS = {"C11": c11, "C12": c12, "C18": c18, "C19": c19}
 
 if __name__ == "__main__":
     # setup: derive the spec-only caches
